@@ -21,7 +21,9 @@ KINDS = {
     "zzz": (".zzz", None, None, "", 0, 1),      # unrecognised extension, binary content
     "png": (".png", 0, 0, "", 1, 1),            # uncommentable, binary content
     "csv": (".csv", 0, 0, "", 1, 0),            # uncommentable, text content
+    "lat": (".rb", 1, 0, "", 0, 0),             # recognised, but the content is not UTF-8: cannot be read as text
 }
+LATIN1 = b"s = 'caf\xe9 na\xefve'\nputs s\n"
 FORCED = {"c": (0, 1, "*/"), "cpp": (1, 1, "*/"), "python": (1, 0, ""), "html": (0, 1, "-->"), "julia": (1, 1, "=#")}
 MULTI_KINDS = ["cpp", "c", "html", "ml", "jl"]
 BINARY = b"\x89PNG\r\n\x1a\n\x00\x00\x00\rIHDR\x00\x01\x02\x03\xff\xfe\x00\x00"
@@ -53,6 +55,8 @@ def tree_of(case):
         k = f["kind"]
         if KINDS[k][5]:
             files[n] = BINARY
+        elif k == "lat":
+            files[n] = LATIN1
         else:
             files[n] = OWN_INFO[k] if f.get("own") == "i" and k in OWN_INFO else PLAIN[k]
         if f.get("sib", "-") == "e":
@@ -117,6 +121,8 @@ def eff_style(case, path):
 
 def header_fails(case, written):
     """Does header creation fail when *written* receives the header? -> None | 'M' | 'C'"""
+    if written.endswith(KINDS["lat"][0]):
+        return "C"  # the file that would be rewritten is not UTF-8 text
     if case.get("template") == "bad":
         return "M"
     st = eff_style(case, written)
@@ -146,7 +152,12 @@ def plan(case):
     if case.get("noinfo") or len(dot) > 1 or (case.get("multi") and case.get("single")) or \
             (case.get("years") and case.get("exclude_year")) or (case.get("style") and "skip" in dot):
         return "usage"
-    dirs = {os.path.dirname(n) for n in files} | {"src", "src/deep", ".reuse", ".reuse/templates", "."}
+    dirs = {"."}
+    for n in files:
+        d = os.path.dirname(n)
+        while d:
+            dirs.add(d)
+            d = os.path.dirname(d)
     work = []
     for n in case["named"]:
         if n in files:
@@ -175,7 +186,7 @@ def plan(case):
         body = files[p]
         st0 = style_of_path(case, p)
         t = p
-        if isinstance(body, bytes) or (st0 is not None and st0[3]) or "force" in dot:
+        if (isinstance(body, bytes) and body != LATIN1) or (st0 is not None and st0[3]) or "force" in dot:
             t = p if p.endswith(".license") else p + ".license"
         if eff_style(case, t) is None:
             if "skip" in dot:
@@ -341,6 +352,25 @@ class AnnotateStream(Stream):
                         files[pos] = {"kind": rng.choice(["foo", "zzz"]) if dot else "foo", "dir": rng.choice(DIRS)}
                         case = {"files": files, "dot": [dot] if dot else [], "template": tmpl}
                         yield self._finish(rng, case, "unrecognised", [int(i == pos) for i in range(n)])
+        # 2a. a file that is not UTF-8 text fails wherever it stands, the others are processed
+        for dot in dots:
+            for n in range(1, 5):
+                for pos in range(n):
+                    files = [{"kind": rng.choice(["py", "cpp", "html", "csv"]), "dir": rng.choice(DIRS)} for _ in range(n)]
+                    files[pos] = {"kind": "lat", "dir": rng.choice(DIRS)}
+                    if rng.random() < 0.3:
+                        files[pos]["sib"] = rng.choice(["e", "i"])
+                    case = {"files": files, "dot": [dot] if dot else [], "skip_existing": rng.random() < 0.3}
+                    yield self._finish(rng, case, "not-utf8", [int(i == pos) for i in range(n)])
+        # 2b. outside the theorems' hypothesis `Separate`: FILE and its existing FILE.license both named
+        for tmpl in (None, "bad"):
+            for dot in (None, "force"):
+                for kind in ("py", "c", "csv"):
+                    files = [{"kind": kind, "dir": "", "sib": "e"}, {"kind": "py", "dir": "src/"}]
+                    case = self._finish(rng, {"files": files, "dot": [dot] if dot else [], "template": tmpl}, "not-separate", [0, 0])
+                    case["named"] = [fname(0, files[0]), fname(0, files[0]) + ".license", fname(1, files[1])]
+                    rng.shuffle(case["named"])
+                    yield case
         # 3. usage errors at every position
         usage = ["mutex-line", "mutex-year", "mutex-force-fallback", "mutex-force-skip", "mutex-fallback-skip", "mutex-style-skip",
                  "noinfo", "nopath", "single-unsupported", "multi-unsupported", "template-missing", "sibling-line-mode"]
@@ -437,7 +467,7 @@ class AnnotateStream(Stream):
             while d:
                 dirs.add(d)
                 d = os.path.dirname(d)
-        fs = ["F%s\n%s" % (n, "" if isinstance(c, bytes) else ("I" if "SPDX-" in c else ("x" if c else ""))) for n, c in files.items()]
+        fs = ["F%s\n%s" % (n, "x" if c == LATIN1 else "" if isinstance(c, bytes) else ("I" if "SPDX-" in c else ("x" if c else ""))) for n, c in files.items()]
         fs += ["D%s\n" % d for d in sorted(dirs)] + ["D.\n"]
         cand = []
         for n in files:
@@ -448,7 +478,7 @@ class AnnotateStream(Stream):
             st = style_of_path(case, p)
             if st is not None:
                 styles.append("%d%d%d%s" % (st[0], st[1], st[3], p))
-        binary = [n for n, c in files.items() if isinstance(c, bytes)]
+        binary = [n for n, c in files.items() if isinstance(c, bytes) and c != LATIN1]
         failing = []
         for p in cand:
             k = header_fails(case, p)
